@@ -25,6 +25,8 @@ def fixture(meter, name):
 
 
 def ite(c, a, b):
+    if isinstance(c, bool):
+        return a if c else b
     ct = c.t if isinstance(c, SBool) else z3.BoolVal(bool(c))
     return SInt(z3.If(ct, term(a), term(b)))
 
@@ -226,7 +228,10 @@ def compare(ctx, exp, got, w, label, only=None):
         if only and k not in only:
             continue
         what = f"{label}: {name} ({k})"
-        if k == "const":
+        if k in ("scaled", "ratio", "ratio2", "int") and isinstance(g, (int, float)) and not isinstance(g, bool) and all(isinstance(x, int) for x in e[1:]):
+            r = CR.compare_concrete({name: e}, {name: g})          # everything concrete on this path: plain arithmetic
+            ok = ctx.check(z3.BoolVal(r is None), what + " [concrete]", w)
+        elif k == "const":
             ok = ctx.check(z3.BoolVal(g == e[1]), what, w)
         elif k == "int":
             gi = int_term(g)
